@@ -44,6 +44,19 @@ struct SPxOut
 /* (the real macro expands to a braced block; the rational LPFreadColName relies on that: `if(..) SPX_MSG_WARNING(..) else {..}`) */
 #define SPX_MSG_WARNING(spxout, x) {}
 
+/* ---- std::vector<char> as the fixed helpers use it: a buffer of EXACTLY n elements (CBMC's malloc model; contents
+ * unconstrained, which over-approximates the zero-filled real vector), data() hands out its address.  No destructor. */
+extern "C" void* malloc(size_t);
+namespace std
+{
+template <class T> struct vector
+{
+   T* data_;
+   vector(size_t n) { data_ = (T*)malloc(n * sizeof(T)); }
+   T* data() { return data_; }
+};
+}
+
 /* ---- ghosts shared with contract.c ------------------------------------------------------------------- */
 extern "C" {
    extern char*  gp_line;     /* the line buffer                                       */
